@@ -1053,6 +1053,18 @@ def py_verdict(prop, line, o):
                 if b <= 5:
                     return "ok" if o == "%02x %s" % (b, CC_NAMES[b]) else "fail:completion-code-table"
                 return "na"    # C19 constrains code points 0-5 only; the panic above 5 is C10's finding D10
+        if prop == "C18" and t[0] == "view" and t[1] in ("get", "set"):
+            # a backing buffer that does not reach the field's highest byte: index out of bounds in the
+            # file declaring the view, nothing else
+            raw_tok = t[3] if t[1] == "get" else t[4]
+            n_raw = 0 if raw_tok == "-" else len(raw_tok) // 2
+            lay0 = gen.LAYOUT.get(t[2])
+            top = lay0[0] if lay0 else (1 if t[2].startswith("pci") else 3)
+            if n_raw <= top:
+                view = t[2].split(".")[0]
+                vfile = {"smbus": "smbus_proto.rs", "routing": "smbus_proto.rs", "transport": "base_packet.rs", "body": "base_packet.rs",
+                         "ctrl": "control_packet.rs", "pci": "vendor_packets.rs", "iana": "vendor_packets.rs"}[view]
+                return "ok" if o == "panic oob " + vfile else "fail:short-view"
         if prop == "C18" and t[0] == "view":
             if t[1] == "get":
                 raw = bytes.fromhex(t[3])
